@@ -72,6 +72,7 @@ fn run(ctx: &mut Ctx) {
         ctx.eval();
         let dir = workdir(ctx, i);
         let nb = 1 + rng.usize(4);
+        let big = i % 97 == 13;
         // fault plan: 0 none, then the single faults of the statement
         let fault = if i % 2 == 0 { 0 } else { 1 + rng.below(8) };
         let fault_board = rng.usize(nb);
@@ -83,7 +84,8 @@ fn run(ctx: &mut Ctx) {
         let mut fault_desc = "none".to_string();
         for b in 0..nb {
             let hw = if rng.chance(0.1) { 0 } else { 1 + rng.below(17) as u32 };
-            let ne = if rng.chance(0.1) { 1000 + rng.usize(1000) } else { 30 + rng.usize(170) };
+            // now and then one board is busy: more than 2^16 (and 2^17) FIFO entries in its stream
+            let ne = if big && b == 0 { 66_000 + rng.usize(80_000) } else if rng.chance(0.1) { 1000 + rng.usize(1000) } else { 30 + rng.usize(170) };
             let frac = *rng.pick(&[0.0, 0.1, 0.1, 0.3]);
             displaced_any |= frac > 0.0;
             let mut items = stream(rng, hw, ne, frac);
@@ -196,12 +198,14 @@ fn run(ctx: &mut Ctx) {
             streams.push((format!("CBF{}", b + 1), bytes));
         }
         // cut into banks / events / files
-        let nfiles = 1 + rng.usize(3);
+        // 1..=3 files, now and then up to 5 of which some in the middle receive no Chronobox event at all (idle sub-runs)
+        let nfiles = if rng.chance(0.15) { 3 + rng.usize(3) } else { 1 + rng.usize(3) };
         let mut files: Vec<Vec<Event>> = (0..nfiles).map(|_| Vec::new()).collect();
         let mut pos = vec![0usize; nb];
         let mut serial = 0;
         let mut fidx = 0;
-        let maxlen = *rng.pick(&[1usize, 3, 4, 5, 300, 300, 5000]);
+        let mut idle_files = 0u64;
+        let maxlen = if big { *rng.pick(&[5000usize, 60_000]) } else { *rng.pick(&[1usize, 3, 4, 5, 300, 300, 5000]) };
         loop {
             let mut banks = Vec::new();
             for (b, (name, bytes)) in streams.iter().enumerate() {
@@ -229,10 +233,23 @@ fn run(ctx: &mut Ctx) {
             }
             if rng.below(10) == 0 && fidx + 1 < nfiles {
                 fidx += 1;
+                if fidx + 1 < nfiles && rng.chance(0.4) {
+                    // leave this file idle: no event, or only events of other kinds
+                    if rng.bool() {
+                        serial += 1;
+                        files[fidx].push(Event { id: *rng.pick(&[1u16, 8]), serial, timestamp: 0, banks: vec![("ATAT".into(), vec![1, 2, 3])] });
+                    }
+                    fidx += 1;
+                    idle_files += 1;
+                }
             }
             if pos.iter().zip(&streams).all(|(p, s)| *p == s.1.len()) {
                 break;
             }
+        }
+        ctx.count_n("files in the middle of a run without any Chronobox event", idle_files);
+        if big {
+            ctx.count("runs with a board sending more than 65 536 FIFO entries");
         }
         let mut args = Vec::new();
         for (k, evs) in files.iter().enumerate() {
